@@ -135,6 +135,31 @@ class Ctx:
         return out
 
 
+# ------------------------------------------------------------------------------ harness extension
+QEXT_NAME = "bpm.quantum"
+QEXT_OPS = {"H": ([Q], [Q]), "CX": ([Q, Q], [Q, Q]), "Measure": ([Q], [Q, B]), "CFlip": ([B, Q], [B, Q])}
+_QEXT = None
+
+
+def qext():
+    """A small user extension with linear and mixed-type operations (hugr-py side), registered with
+    the reference validator through a hand-written document."""
+    global _QEXT
+    if _QEXT is None:
+        from hugr import ext, tys
+        from mc.ref import hugrjson
+
+        e = ext.Extension(QEXT_NAME, ext.Version(0, 1, 0))
+        doc = {"version": "0.1.0", "name": QEXT_NAME, "runtime_reqs": [], "types": {}, "values": {}, "operations": {}}
+        for name, (i, o) in QEXT_OPS.items():
+            e.add_op_def(ext.OpDef(name, ext.OpDefSig(tys.FunctionType([T.build_type(t) for t in i], [T.build_type(t) for t in o])), f"{name} gate"))
+            doc["operations"][name] = {"extension": QEXT_NAME, "name": name, "description": f"{name} gate", "binary": False,
+                                       "signature": {"params": [], "body": {"input": [T.ref_type_json(t) for t in i], "output": [T.ref_type_json(t) for t in o], "runtime_reqs": []}}}
+        hugrjson.register_extension(doc)
+        _QEXT = e
+    return _QEXT
+
+
 # ------------------------------------------------------------------------------ op table
 def op_result(name, arg_tys, param=None):
     """Reference typing of the op alphabet: result row or None if ill-typed."""
@@ -153,6 +178,9 @@ def op_result(name, arg_tys, param=None):
     if name == "Tag":
         tag, rows = param
         return [["Sum", rows]] if arg_tys == rows[tag] else None
+    if name in QEXT_OPS:
+        i, o = QEXT_OPS[name]
+        return list(o) if arg_tys == i else None
     raise AssertionError(name)
 
 
@@ -174,6 +202,8 @@ def build_op(name, param=None):
     if name == "Tag":
         tag, rows = param
         return ops.Tag(tag, tys.Sum([[T.build_type(t) for t in r] for r in rows]))
+    if name in QEXT_OPS:
+        return ops.ExtOp(qext().operations[name])
     raise AssertionError(name)
 
 
@@ -261,6 +291,8 @@ def start(sc: Scenario) -> Ctx:
 
     ctx = Ctx()
     ctx.sc = sc
+    if any(o in QEXT_OPS for o in sc.ops):
+        qext()
     if sc.root == "dfg":
         d = Dfg(*[T.build_type(t) for t in sc.row])
         ctx.root, ctx.hugr = d, d.hugr
@@ -365,6 +397,10 @@ def enabled(ctx: Ctx) -> list:
             elif name == "DivMod":
                 for c in _args_choices(ctx, [I, I], 2):
                     calls.append(["op", name, [w.id for w in c]])
+            elif name in QEXT_OPS:
+                want = QEXT_OPS[name][0]
+                for c in _args_choices(ctx, want, len(want)):
+                    calls.append(["op", name, [w.id for w in c]])
         for ti, (tag, rows) in enumerate(sc.tags):
             for c in _args_choices(ctx, rows[tag], len(rows[tag])):
                 calls.append(["op", "Tag", [w.id for w in c], ti])
@@ -435,6 +471,17 @@ def enabled(ctx: Ctx) -> list:
                     for i in live:
                         if name == "Noop" or ctx.wires[tr[i]].ty == B:
                             calls.append(["iop", name, [i]])
+                elif name in QEXT_OPS:
+                    want = QEXT_OPS[name][0]
+                    pools = [[i for i in live if ctx.wires[tr[i]].ty == t] for t in want]
+                    for combo in itertools.product(*pools):
+                        if len(set(combo)) == len(combo):
+                            calls.append(["iop", name, list(combo)])
+                    if len(want) == 2:  # a wire before an index
+                        for w in ctx.visible():
+                            if w.ty == want[0] and w.frame_uid == top.uid and w.id not in tr and not (lin(w.ty) and w.used):
+                                for i in pools[1]:
+                                    calls.append(["iop", name, [["w", w.id], i]])
                 elif name == "DivMod":
                     ints = [i for i in live if ctx.wires[tr[i]].ty == I]
                     for i, j in itertools.product(ints, repeat=2):
@@ -466,7 +513,22 @@ def enabled(ctx: Ctx) -> list:
                         for c in _args_choices(ctx, w.ty[1], len(w.ty[1])):
                             calls.append(["callind", w.id, [x.id for x in c]])
         calls += close_choices(ctx)
+        tr = top.info.get("tracked")
+        if tr is not None:
+            # a linear wire that is currently tracked may only be consumed through its index
+            held = {w for w in tr if w is not None and lin(ctx.wires[w].ty)}
+            calls = [c for c in calls if not (c[0] in ("op", "nested", "cond", "if", "loop", "cfg", "close") and any(i in held for i in _flat_ids(c)))]
     return calls
+
+
+def _flat_ids(call):
+    out = []
+    for x in call[1:]:
+        if isinstance(x, int):
+            out.append(x)
+        elif isinstance(x, list):
+            out += [y for y in x if isinstance(y, int)]
+    return out
 
 
 def _must_consume(ctx: Ctx):
